@@ -211,11 +211,12 @@ type mstate struct {
 var alphabet = []string{"Write(empty)", "Write(<block)", "Write(block)", "Write(2*block,spare-cap)", "Write(3*block,guarded)", "Write(block+1,guarded)", "Write(block+1,spare-cap)", "Write(3*block-1,spare-cap)", "Write(non-canonical)", "Sum(nil)", "Sum(prefix)", "Sum(prefix,spare-cap)", "Reset", "State", "SetState(saved)"}
 
 type streamer struct {
-	c    *mon.Ctx
-	ch   *chain
-	ar   [2]*arena
-	seed int64
-	n    int64 // node counter (constructor / preamble variety)
+	c     *mon.Ctx
+	ch    *chain
+	ar    [2]*arena
+	seed  int64
+	n     int64 // node counter (constructor variety)
+	nodes int64
 }
 
 func newStreamer(c *mon.Ctx, ch *chain, stream string) *streamer {
@@ -405,14 +406,6 @@ func (s *streamer) fresh(variant int64) hash.Hash {
 	} else {
 		h = s.ch.newPkg()
 	}
-	if variant&2 != 0 { // a used and reset hasher must behave like a new one
-		func() {
-			defer func() { recover() }()
-			h.Write(s.ch.enc(s.ch.zero()))
-			h.Sum(nil)
-			h.Reset()
-		}()
-	}
 	return h
 }
 
@@ -556,6 +549,7 @@ func (s *streamer) node(path []call, cl call, m mstate) (mstate, bool) {
 		}
 	}
 	s.c.Current(s.ch.name + " " + cl.kind)
+	s.nodes++
 	return s.check(hs, path, cl, m, true)
 }
 
